@@ -229,7 +229,13 @@ func genOps(t *rapid.T, c *Case, o genOpts) {
 		}
 		return op
 	})
-	c.Ops = rapid.SliceOfN(opGen, 1, o.maxOps).Draw(t, "ops")
+	// Histories usually start with a few uploads so that reads and listings meet stored names.
+	upGen := rapid.Custom(func(t *rapid.T) Op {
+		return Op{K: "up", N: rapid.IntRange(0, n-1).Draw(t, "n"), Data: genData(t, o.sqlContents)}
+	})
+	pre := rapid.SliceOfN(upGen, 0, n).Draw(t, "preload")
+	k := rapid.IntRange(1, o.maxOps).Draw(t, "nops")
+	c.Ops = append(pre, rapid.SliceOfN(opGen, k, k).Draw(t, "ops")...)
 }
 
 func genRoot(t *rapid.T, absolute bool) string {
